@@ -228,11 +228,40 @@ def make_case(seed, idx):
         dket = int_mpdm(ket)
         dbra = dket.conj() if bra_mode == "default" else int_mpdm(bra)
         sub = mpos[:4]
+        d1 = dket.calc_1site_rdm()
+        d2 = dket.calc_2site_rdm()
+        drdm1, drdm2 = [], []
+        for i in range(n):
+            drdm1 += [val(z) for z in np.asarray(d1[i]).ravel()]
+            for j in range(i + 1, n):
+                drdm2 += [val(z) for z in np.asarray(d2[(i, j)]).ravel()]
         dm = {"bra": [[int(x.shape[-1]), table(x.array, cplx)] for x in dbra],
               "ket": [[int(x.shape[-1]), table(x.array, cplx)] for x in dket],
               "nops": len(sub),
               "one": [val(dket.expectation(m, self_conj=dbra)) for m in sub],
-              "fast": [val(v) for v in dket.expectations(sub, self_conj=dbra)]}
+              "fast": [val(v) for v in dket.expectations(sub, self_conj=dbra)],
+              "rdm1": drdm1, "rdm2": drdm2}
+    # occupations: values and the number-operator MPOs the code built and cached for them
+    occ = None
+    if not any(isinstance(b, BasisHalfSpin) for b in basis) or kind == "free":
+        vals, sites, tabs = [], [], []
+        try:
+            if model.n_edofs > 0:
+                ev = np.atleast_1d(ket.e_occupations)
+                for dof, v, m in zip(model.e_dofs, ev, ket.model.mpos["e_occupations"]):
+                    if all(is_int_array(x.array) for x in m):
+                        vals.append(val(v)); sites.append(int(model.dof_to_siteidx[dof]))
+                        tabs.append([[int(x.shape[0]), int(x.shape[-1]), table(x.array, cplx)] for x in m])
+            if len(model.v_dofs) > 0:
+                pv = np.atleast_1d(ket.ph_occupations)
+                for dof, v, m in zip(model.v_dofs, pv, ket.model.mpos["ph_occupations"]):
+                    if all(is_int_array(x.array) for x in m):
+                        vals.append(val(v)); sites.append(int(model.dof_to_siteidx[dof]))
+                        tabs.append([[int(x.shape[0]), int(x.shape[-1]), table(x.array, cplx)] for x in m])
+        except Exception as e:
+            occ = {"error": repr(e)}
+        if occ is None and vals:
+            occ = {"values": vals, "sites": sites, "mpos": tabs}
     r1 = ket.calc_1site_rdm()
     rdm1 = []
     for i in range(n):
@@ -251,7 +280,7 @@ def make_case(seed, idx):
         "impl": {"one": one, "fast": fast, "slow": slow,
                  "planL": [list(map(int, k)) for k in ld if k != ()], "planR": [list(map(int, k)) for k in rd if k != ()],
                  "split": split, "envL": envs(ld), "envR": envs(rd), "rdm1": rdm1, "rdm2": rdm2},
-        "dm": dm,
+        "dm": dm, "occ": occ,
     }
     return case
 
